@@ -159,11 +159,11 @@ def run(v):
     if not d["ok"]:
         raise SpecError("History.tla fails its design check:\n" + d["tail"])
     q = v.tier == "quick"
-    fams = wild_defs(SEED + 40, 60 if q else 600) + D.conv_family(SEED + 41, 10 if q else 80, budget=10**9) + \
+    fams = wild_defs(SEED + 40, 160 if q else 3000) + D.conv_family(SEED + 41, 10 if q else 80, budget=10**9) + \
         D.cmd_family(SEED + 42, 10 if q else 80, depth=3, budget=10**9) + D.alt_family(SEED + 43, 8 if q else 60, budget=10**9) + \
         D.adj_family(SEED + 44, 8 if q else 60, budget=10**9) + D.spell_family(SEED + 45, 7 if q else 28, budget=10**9) + \
         D.amb_family(SEED + 46, 3) + [D.mkdef("empty", D.level([], D.NOTAIL), maxlen=1)]
-    sess = sessions(SEED, fams, 40 if q else 120)
+    sess = sessions(SEED, fams, 50 if q else 150)
     spath = os.path.join(WORK, f"C04-{v.tier}-sessions.ndjson")
     with open(spath, "w") as w:
         for s in sess:
